@@ -1,10 +1,12 @@
 import PokerVerif.Drv.SMDrv
+import PokerVerif.Drv.TBDrv
 /-! Correspondence driver: reads a trace on stdin, replays it through the models, prints verdict lines. -/
 open Drv
 
 structure DrvState where
   lineNo : Nat := 0
   sm : SMDrv := {}
+  tb : TBDrv := {}
   bad : Nat := 0
 
 partial def loop (h : IO.FS.Stream) (out : IO.FS.Stream) (s : DrvState) : IO DrvState := do
@@ -19,6 +21,10 @@ partial def loop (h : IO.FS.Stream) (out : IO.FS.Stream) (s : DrvState) : IO Drv
     let (sm', outs) := smLine s.sm n rest
     for o in outs do out.putStrLn o
     loop h out { s with lineNo := n, sm := sm' }
+  | "tb" :: rest =>
+    let (tb', outs) := tbLine s.tb n rest
+    for o in outs do out.putStrLn o
+    loop h out { s with lineNo := n, tb := tb' }
   | _ =>
     out.putStrLn s!"BADLINE {n} unknown-layer"
     loop h out { s with lineNo := n, bad := s.bad + 1 }
@@ -28,4 +34,5 @@ def main : IO Unit := do
   let stdout ← IO.getStdout
   let s ← loop stdin stdout {}
   for l in s.sm.summary do stdout.putStrLn l
+  for l in s.tb.summary do stdout.putStrLn l
   stdout.putStrLn s!"DONE lines={s.lineNo}"
